@@ -780,6 +780,11 @@ def get_time_maps_from_alignment(
             np.where(np.logical_and(score_onsets == u, score_durations > 0))[0]
             for u in score_unique_onsets
         ]
+        # score onsets at which only ornaments were matched have no performed
+        # time of their own: they are not knots of the maps
+        has_notes = np.array([len(u) > 0 for u in score_unique_onset_idxs], dtype=bool)
+        score_unique_onsets = score_unique_onsets[has_notes]
+        score_unique_onset_idxs = [u for u in score_unique_onset_idxs if len(u) > 0]
 
     else:
         score_unique_onset_idxs = [
